@@ -431,6 +431,8 @@ class Interp:
         body_order = [b for b in fi['rpo'] if b in lp['body']]
         log = self.hooks.log
         self.hooks.on_loop_entry(fn, head, entry)
+        if fn.name in self.ctx.limits.get('unroll', ()):
+            return self.run_loop_unrolled(fn, fi, lp, entry, rets)
         heads = self.group_and_join(fn, lp, entry, 'entry')
         results = {}      # id(head state) -> (head, backs, outs, logsegment)
         rounds = 0
@@ -526,6 +528,28 @@ class Interp:
                     print('   [dbg] head key=%x cell38=%r results-cached=%s last=%r' % (hash(self.group_key(h, fn, lp)) & 0xffffff, c, id(h) in results, h.pathlist()[-1][2][:60]))
                 for u in uncovered[:3]:
                     print('   [dbg] unc  key=%x cell38=%r' % (hash(self.group_key(u, fn, lp)) & 0xffffff, u.mem.get('STATE', {}).get(((38, ()), 1))))
+
+    def run_loop_unrolled(self, fn, fi, lp, entry, rets):
+        """loops with a constant trip count, analysed iteration by iteration without joining (opt-in per function)"""
+        head = lp['head']
+        body_order = [b for b in fi['rpo'] if b in lp['body']]
+        outs = {}
+        cur = list(entry)
+        for it in range(40):
+            if not cur:
+                return outs
+            nxt = []
+            for h in cur:
+                backs = []
+                o = {}
+                self.process(fn, fi, body_order, {head: [h]}, rets, (lp, backs, o))
+                for tgt, sts in o.items():
+                    outs.setdefault(tgt, []).extend(sts)
+                nxt.extend(backs)
+            if len(nxt) > 64:
+                raise AnalysisBroken('unrolled loop at %s:%s forks too much' % (fn.name, head))
+            cur = nxt
+        raise AnalysisBroken('loop at %s:%s does not have a small constant trip count (unrolling requested)' % (fn.name, head))
 
     def snapshot_places(self, st, fn, lp):
         """values of the loop-carried places at the head (for ranking obligations)"""
